@@ -130,7 +130,7 @@ def snapshot(sheet):
                 entry.append('EXC ' + type(e).__name__)
             if cls == 'CSSStyleRule':
                 entry.append([s.selectorText for s in r.selectorList])
-                entry.append([(p.name, p.value, p.priority) for p in r.style.getProperties(all=True)])
+                entry.append([(p.name, p.literalname, p.value, p.priority) for p in r.style.getProperties(all=True)])
             elif cls in ('CSSMediaRule',) and depth < 3:
                 entry.append(r.media.mediaText)
                 entry.append(rules(r.cssRules, depth + 1))
